@@ -288,4 +288,32 @@ theorem C11_old_reference_resolves_again (s : Sys) (i : Nat) (pid : Pid) (e : Na
         | none => exact ⟨rfl, rfl⟩
         | some e' => exact ⟨rfl, rfl⟩
 
+/-- **a message to a live remote actor is delivered exactly once, intact**: node `i` tells through a
+fresh reference (or, by `C11_old_reference_resolves_again`, one whose cached stream is gone) to a
+process registered on the peer, the network being up or a stream open; then exactly one delivery
+happens, on the peer, to that process, with the system flag, sender, receiver and payload sent -/
+theorem C11_tell_delivers_once (s : Sys) (i : Nat) (hi : i = 0 ∨ i = 1) (pid : Pid) (system : Bool)
+    (sender : Option Pid) (b : Body Pay)
+    (hphys : s.a.phys ≠ s.b.phys)
+    (hpeer : pid.phys = (s.node (other i)).phys)
+    (hreg : (s.node (other i)).reg.contains pid.logical = true)
+    (hup : s.up = true ∨ s.cur.isSome = true) :
+    (tellVia s i ⟨pid, none⟩ system sender (.wrapped sender (some pid) b)).2.2 =
+      .seen [(other i, ⟨pid.logical, system, sender, some pid, .wrapped sender (some pid) b⟩)] := by
+  have hreg' : pid.logical ∈ (s.node (other i)).reg := by simpa using hreg
+  obtain ⟨e, he2, hecur, hea, heb⟩ := resolve_spec s hup
+  have hnode : ∀ j, (resolve s).1.node j = s.node j := by
+    intro j; simp only [Sys.node, hea, heb]
+  have hne : (pid.phys == (s.node i).phys) = false := by
+    rw [hpeer]
+    rcases hi with rfl | rfl
+    · simpa [Sys.node, other] using fun h => hphys h.symm
+    · simpa [Sys.node, other] using hphys
+  have hpe : (pid.phys != (s.node (other i)).phys) = false := by simp [hpeer]
+  have ht := transmit_delivers 3 (resolve s).1 i e pid system sender b hecur
+    (by rw [hnode]; exact hpeer) (by rw [hnode]; exact hreg')
+  unfold tellVia
+  simp only [hne, hpe, Bool.false_eq_true, if_false, he2]
+  exact ht
+
 end MV.Props.C11
